@@ -127,7 +127,11 @@ func mkPred(r *gen.Rand) pred {
 		lo := r.Intn(700)
 		hi := lo + 1 + r.Intn(250)
 		// the predicate's error is its own business; it may even be one of the library's own sentinels
-		e := []error{errPred, errPred, gots.ErrAccumulatorDone, gots.ErrNoPayloadUnitStartIndicator, gots.ErrNoPayload, io.EOF}[r.Intn(6)]
+		es := []error{errPred, errPred, gots.ErrAccumulatorDone, gots.ErrNoPayloadUnitStartIndicator, gots.ErrNoPayload, io.EOF,
+			gots.ErrShortPayload, gots.ErrInvalidPATLength, gots.ErrInvalidSCTE35Length, gots.ErrPMTParse, gots.ErrPMTNotFound, gots.ErrPATNotFound,
+			gots.ErrInvalidPacketLength, gots.ErrAccumulatorInvalidState, gots.ErrUnknownTableID, gots.ErrParsePMTDescriptor, gots.ErrSyncByteNotFound,
+			gots.ErrSCTE35UnsupportedSpliceCommand, gots.ErrBadSyncByte, io.ErrUnexpectedEOF, io.ErrShortWrite}
+		e := es[r.Intn(len(es))]
 		return pred{fmt.Sprintf("len >= %d, error %q while %d <= len < %d", T, e, lo, hi), func(b []byte) (bool, error) {
 			if len(b) >= lo && len(b) < hi {
 				return false, e
@@ -209,6 +213,7 @@ func longUnit(c *mon.Ctx, r *gen.Rand) {
 	})
 	pid := 32 + r.Intn(8000)
 	var want []byte
+	var written []packet.Packet
 	n := 0
 	total := 380 + r.Intn(500)
 	if threshold < 0 && r.Bool() {
@@ -223,6 +228,7 @@ func longUnit(c *mon.Ctx, r *gen.Rand) {
 		_, err := acc.WritePacket(&pk)
 		c.Eval(1)
 		want = append(want, chunk...)
+		written = append(written, pk)
 		n++
 		holds := threshold >= 0 && len(want) >= threshold
 		if holds != (err == gots.ErrAccumulatorDone) || (!holds && err != nil) {
@@ -241,6 +247,13 @@ func longUnit(c *mon.Ctx, r *gen.Rand) {
 	}
 	if got := acc.Packets(); len(got) != n {
 		c.Fail("long-unit:packets", fmt.Sprintf("Packets() lists %d packets, %d were accepted", len(got), n), wit{Detail: fmt.Sprintf("threshold %d", threshold)})
+	} else {
+		for k := range got {
+			if got[k] == nil || *got[k] != written[k] {
+				c.Fail("long-unit:packet-list-content", fmt.Sprintf("entry %d of the %d-entry packet list of a long unit is not the %d-th packet accepted", k, n, k), wit{Detail: fmt.Sprintf("threshold %d", threshold)})
+				break
+			}
+		}
 	}
 	if calls != n {
 		c.Fail("long-unit:predicate-calls", fmt.Sprintf("the predicate was evaluated %d times for %d accepted packets", calls, n), wit{Detail: fmt.Sprintf("threshold %d", threshold)})
